@@ -19,7 +19,7 @@ import (
 )
 
 // texts appended to the rule descriptions of the checks that use the shared layers
-const scaleRule = "; scale layers: for 34 productions (widths of $in / $all / $or / document members / pipeline stages / $lookup stages / $facet members / expression operands / $switch branches / search clauses / updates / $set members / $each / arrayFilters / deletes / documents / numeric lists outside the zones / query vectors; depths of embedded documents / $and-$or / $elemMatch / $not / nested arrays / arrays of documents / $cond / nested $lookup-$unionWith / $map-$filter / compound search; lengths of string, e-mail, $date, $binary literals and field names) ONE size is swept over every value of a range (width 1..140 + neighbourhoods of powers of two to 1 100, thorough 1..1 100 to 9 000; depth 1..70 to 300, thorough 1..300 to 1 200; length 0..1 100 bytes to 70 000, thorough 0..4 200 to 300 000) x 4 leaf mixes (strings; a cycle over all literal classes; numbers first then wrapped literals and documents; numbers incl. literals that do not survive a float64), every element / level with its own SECRET leaf"
+const scaleRule = "; scale layers: for 36 productions (widths of $in / $all / $or / document members / pipeline stages / $lookup stages / $facet members / expression operands / $switch branches / search clauses / updates / $set members / $each / arrayFilters / deletes / documents / numeric lists outside the zones / query vectors; depths of embedded documents / $and-$or / $elemMatch / $not / nested arrays / arrays of documents / $cond / nested $lookup-$unionWith / $map-$filter / compound search; lengths of string, e-mail, $date, $binary literals and field names; well-formed base64 payloads of every decoded size and hex texts of every digit count) ONE size is swept over every value of a range (width 1..140 + neighbourhoods of powers of two to 1 100, thorough 1..1 100 to 9 000; depth 1..70 to 300, thorough 1..300 to 1 200; length 0..1 100 bytes to 70 000, thorough 0..4 200 to 300 000) x 4 leaf mixes (strings; a cycle over all literal classes; numbers first then wrapped literals and documents; numbers incl. literals that do not survive a float64), every element / level with its own SECRET leaf"
 const streamLenRule = "; line-length sweep on the real stream code: a 3-line input whose middle line has exactly L bytes for every L up to past the reader's limit (quick: every L to 9 000 and 65 400..66 600 plus the neighbourhood of every multiple of 256; thorough: every L to 140 000), line shapes {length in a SECRET, blanks in text outside the zones of another component's line, mixed text in a KEEP attribute, an already redacted line, an $in list that grows under redaction}"
 
 type scaleKind struct {
@@ -402,6 +402,37 @@ func init() {
 				g.FN(), LO("$date", g.secret(LS(c2+pad(n)), ClsDate, c2)),
 				g.FN(), LO("$binary", LO("base64", g.secret(LS(c3+pad(n)), ClsBin, c3), "subType", LS("00").Keep())))
 		}))))
+	})
+	// well-formed base64 payloads that decode to exactly n bytes (a UUID is 16, an MD5 16, a SHA-1 20, ...), and
+	// ObjectId-like hex texts of n digits: a tool that looks at the decoded size / digit count sees every value
+	wellFormedBin := func(g *Gen, n int) *LNode {
+		g.nsec++
+		b := make([]byte, n)
+		for i := range b {
+			b[i] = byte(37*i + 11*g.nsec + 5)
+		}
+		t := base64.StdEncoding.EncodeToString(b)
+		can := t
+		if n < 12 {
+			can = "" // too short to be searched for
+		}
+		return LO("$binary", LO("base64", g.secret(LS(t), ClsBin, can), "subType", LS("04").Keep()))
+	}
+	L("filter.binary-payload-bytes", func(g *Gen, n int, lf func(int) *LNode) *LNode {
+		return g.find(listed(g, func() *LNode {
+			return LO(g.FN(), wellFormedBin(g, n), g.FN(), LO("$in", LA(wellFormedBin(g, n), g.sec())))
+		}))
+	})
+	L("pipeline.binary-payload-bytes-and-hex-digits", func(g *Gen, n int, lf func(int) *LNode) *LNode {
+		g.nsec++
+		hx := strings.Repeat(fmt.Sprintf("%02x5f1e2d3c4b5a6978", g.nsec%256), n/18+1)[:n]
+		can := hx
+		if n < 12 {
+			can = ""
+		}
+		return g.agg(LO("$match", listed(g, func() *LNode {
+			return LO(g.FN(), wellFormedBin(g, n), g.FN(), LO("$oid", g.secret(LS(hx), ClsOid, can)))
+		})))
 	})
 	L("field-name", func(g *Gen, n int, lf func(int) *LNode) *LNode {
 		return g.find(listed(g, func() *LNode { return LO(FN("k"+pad(n)), g.sec(), g.FN(), LO(FN("n"+pad(n)), g.sec())) }))
